@@ -2,7 +2,8 @@
 C01 bridge for the start protocol: the access lists REGENERATED from core/schedule/do_at.go + start_sync.go
 (`Pandora.Gen.SchedConc`, rewritten on every run) have the shape for which `Proofs/C01Conc.run_inv` holds.
 
-`nextProg_safe` is a computation (`decide`) on the regenerated list: the first access of `Next` is the Once, its body only
+`startProg_effect` runs the regenerated access list of `Start` alone on an untouched schedule and states the resulting
+state. `nextProg_safe` is a computation (`decide`) on the regenerated list: the first access of `Next` is the Once, its body only
 marks the schedule started (at most once) and stores the clock (at least once) — in either order —, the index is drawn
 and `s.start` is read only after the Once.  Renamed locals, `s.i.Add(1) - 1` for `s.i.Inc() - 1`, a different arrangement
 of the final `if`/`return`, the two statements of the Once's body in the other order, and a check of the started flag in
@@ -18,8 +19,21 @@ open Pandora.Model.C01Conc Pandora.Proofs.C01Conc Pandora.Gen.SchedConc
 
 theorem nextProg_safe : safeLazy nextProg = true := by decide
 
-/-- `Start(t)`: mark started (a second Start panics), then — through the same Once — store the argument -/
-theorem startProg_shape : startProg = [.swapStarted, .onceEnter 2, .writeStartArg, .onceExit] := by decide
+/-- `Start(t)` run alone on an untouched schedule (what `C01_started_concurrent` starts from): nobody panics, the started
+flag is up, the Once is done, `s.start = t`, no index was drawn, the call has returned. A statement about what the
+regenerated access list DOES, not about its spelling: `MarkStarted()` before or after the Once both pass; a Start that no
+longer stores its argument, stores the clock, or leaves the Once open does not. -/
+theorem startProg_effect (t : Int) :
+    (soloStart t startProg).panics = [] ∧ (soloStart t startProg).started = true ∧ (soloStart t startProg).once = .done ∧
+    (soloStart t startProg).start = some t ∧ (soloStart t startProg).ctr = 0 ∧ (soloStart t startProg).th 0 = [] ∧
+    (soloStart t startProg).log = [] :=
+  ⟨rfl, rfl, rfl, rfl, rfl, rfl, rfl⟩
+
+/-- … and a second `Start` panics (the flag is swapped exactly once per Start) -/
+theorem startProg_twice (t t' : Int) :
+    (run t' { soloStart t startProg with th := fun j => if j = 0 then startProg else [] }
+      (List.replicate startProg.length (0, 0))).panics = [0] :=
+  rfl
 
 theorem nextProg_body : ∃ g body, nextProg = progG g body ∧ BodyOK g body :=
   safeLazy_shape nextProg nextProg_safe
